@@ -114,6 +114,27 @@ def initOk (c : PanelCfg) (sh : Sh) : Bool :=
   && decide (sh.tasksRemain = (P.length : Int))
   && P.any (fun r => dad r == c.n)
 
+/-- first column of the panel containing column `k` (`size[k] > 0` on a leading column, minus the offset otherwise) -/
+def panOf (sh : Sh) (k : Nat) : Nat := if getZ sh.size k > 0 then k else k - (-(getZ sh.size k)).toNat
+def widthOf (sh : Sh) (p : Nat) : Nat := (getZ sh.size p).toNat
+
+/-- Second executable check of `ParallelInit`'s output (hypothesis of the progress theorem): the panels tile the columns, the
+columns of a panel form an etree path that leaves the panel only through its last column, no column flag is set, `fb_cols[p] = p`,
+and every panel without child panels is waiting in the queue. -/
+def initOk2 (c : PanelCfg) (sh : Sh) : Bool :=
+  let P := panelsOf c.n sh
+  let pan := panOf sh
+  let wd := widthOf sh
+  decide (sh.spin.size = c.n) && decide (sh.fb.size = c.n + 1)
+  && (List.range c.n).all (fun k => P.contains (pan k) && decide (pan k ≤ k) && decide (k < pan k + wd (pan k)))
+  && P.all (fun p => (List.range' p (wd p)).all (fun k => pan k == p))
+  && P.all (fun p => decide (0 < wd p) && decide (p + wd p ≤ c.n))
+  && (List.range c.n).all (fun k => !(decide (k + 1 < pan k + wd (pan k))) ||
+        (decide (pan k ≤ getN c.etree k) && decide (getN c.etree k < pan k + wd (pan k))))
+  && (List.range c.n).all (fun k => getN sh.spin k == 0)
+  && P.all (fun p => getN sh.fb p == p)
+  && P.all (fun p => !(getZ sh.ukids p == 0) || (List.range sh.tail).any (fun k => decide (sh.head ≤ k) && (getN sh.queue k == p)))
+
 def taken (sh : Sh) (p : Nat) : Bool := decide (getN sh.state p ≤ BUSY)
 
 /-- tasks_remain = number of untaken panels -/
